@@ -363,17 +363,24 @@ PROPS["C08"] = _tx("C08", ["C08_queue_initial", "C08_queue_invariant", "C08_requ
     "file' for requests queued before EOF holds when the peer sent no data beyond the EOF size (else FilesizeError).")
 
 PROPS["C01"] = _tx("C01", ["C01_staged_file_is_source", "C01_store_is_stage_step", "C01_delivered_file_is_staged_file",
-                           "C01_complete_only_if_all_received", "C01_sender_emits_truthful_data"], ["recv", "send", "segments", "checksum"],
-    "Proof, assume-guarantee in two halves: (receiver) for every source file and every sequence of truthful file data PDUs - "
-    "any order, duplication, overlap, re-segmentation - the staged file IS the source file as soon as the bookkeeping says "
-    "[0,|f|) is complete (no appeal to the checksum, so checksum-neutral contents and the null checksum are covered); the model's "
-    "store_file_data is exactly that staging step, a finalisation stores the staged content under the destination name and "
-    "reports Complete only with metadata and all bytes present; (sender) every file data PDU a sender for f emits is truthful "
-    "for f (C07). Lock-step correspondence for both machines plus an oracle on the real receiver: whenever all inputs of a "
-    "script are truthful for a file, a successful Finished indication implies destination == source.",
-    " PARTIAL: the composition of the two halves over the two-machine system with a lossy/reordering link ('the link delivers "
-    "only what was sent', C04's 'sender success implies receiver success') is argued in DESIGN.md, not mechanised; real task "
-    "interleavings are outside the model.")
+                           "C01_complete_only_if_all_received", "C01_sender_emits_truthful_data", "C01_receiver_history",
+                           "C01_receiver_initial", "C01_receiver_step", "C01_sender_directives_truthful", "C01_system"],
+                   ["recv", "send", "segments", "checksum"],
+    "Proof. (receiver) an invariant of the receive-transaction model kept by EVERY operation on truthful inputs (file data "
+    "carrying the source's bytes in any order, duplication, overlap, re-segmentation; the sender's Metadata; a NoError EOF "
+    "stating |f|; everything else unconstrained): over every history, if the transaction ever emits a Finished indication "
+    "or Finished PDU saying Retained/Complete, the filestore (abstract: any write/lookup pair where a successful write is "
+    "visible) holds exactly the source file under the destination name - no appeal to the checksum, so checksum-neutral "
+    "contents and the null checksum are covered; (sender) every file data PDU is truthful (C07), every Metadata PDU is the "
+    "sender's metadata, every EOF states its size, the file never changes; (composition) in the two-machine system "
+    "Model/Link.v, after any script of link behaviour (deliver any PDU in flight, duplicate, drop, cut a direction), user "
+    "requests at either end and time, every PDU in flight towards the receiver is truthful and a receiver success claim "
+    "implies destination == source. Lock-step correspondence for both machines and for the pair (component link), plus "
+    "oracles on the real code: a successful Finished indication at either end implies destination == source.",
+    " PARTIAL: (i) the sending entity's success indication is tied to the receiver's only through 'the sender reports what "
+    "the Finished PDU says' (sender model) - not a separate theorem; (ii) metadata with filestore requests is excluded from "
+    "the theorem (they may legitimately rename/delete the file); (iii) real task interleavings and the daemon's routing are "
+    "outside the model; (iv) a receive transaction re-spawned by the daemon for stray PDUs after the original ended is C11.")
 
 PROPS["C03"] = _tx("C03", ["C03_receiver_invariant", "C03_receiver_initial", "C03_receiver_never_stuck",
                            "C03_sender_invariant", "C03_sender_initial", "C03_sender_never_stuck",
